@@ -7,7 +7,7 @@ from jugverif import core, graphcheck as G, genprog
 LEVEL = 'proof'
 THEOREMS = ['Jug.C15.classify_spec', 'Jug.C15.totals_add_up', 'Jug.C15.cached_eq_uncached', 'Jug.C15.check_iff', 'Jug.C15.classifier_table_matches', 'Jug.C15.graph_classifier_eq',
             'Jug.C15.short_all_complete_iff', 'Jug.C15.short_all_complete_count',
-            'Jug.MemoProps.memo_truthful', 'Jug.MemoProps.locked_answers_constant', 'Jug.MemoProps.failed_sticky', 'Jug.MemoProps.canLoad_truthful']
+            'Jug.MemoProps.memo_truthful', 'Jug.MemoProps.lock_seen_through_wrapper', 'Jug.MemoProps.classify_through_wrappers', 'Jug.MemoProps.locked_answers_constant', 'Jug.MemoProps.failed_sticky', 'Jug.MemoProps.canLoad_truthful']
 
 
 def extract():
